@@ -204,7 +204,11 @@ class FindCacheFile(namedtuple('FindCacheFile', ['regen_files', 'cache'])):
 
 
 def write_depfile(env, path, output, seen_dirs, makeify=False):
-    with open(path.string(env.base_dirs), 'w') as f:
+    # Write to a temporary file and rename it into place, so that an
+    # interrupted run can't leave an empty depfile (which would silently drop
+    # the directory dependencies of the regeneration rule).
+    filename = path.string(env.base_dirs)
+    with open(filename + '.tmp', 'w') as f:
         # Since this file is in the build dir, we can use relative dirs for
         # deps also in the build dir.
         roots = env.base_dirs.copy()
@@ -221,6 +225,7 @@ def write_depfile(env, path, output, seen_dirs, makeify=False):
             for i in seen_dirs:
                 out.write(i.string(roots), Syntax.target)
                 out.write_literal(':\n')
+    os.replace(filename + '.tmp', filename)
 
 
 def _path_type(path):
